@@ -396,6 +396,7 @@ func isRotlHelper(f *ssa.Function) bool {
 	if l.Op != token.SHL || r.Op != token.SHR || l.X != ssa.Value(x) || r.X != ssa.Value(x) {
 		return false
 	}
+	modded := 0
 	isAmt := func(v ssa.Value) bool { // amt or amt%32
 		v = stripConvAll(v)
 		if v == ssa.Value(amt) {
@@ -404,6 +405,7 @@ func isRotlHelper(f *ssa.Function) bool {
 		if b, ok := v.(*ssa.BinOp); ok && (b.Op == token.REM || b.Op == token.AND) {
 			if stripConvAll(b.X) == ssa.Value(amt) {
 				if k, ok := constInt(b.Y); ok && ((b.Op == token.REM && k == 32) || (b.Op == token.AND && k == 31)) {
+					modded++
 					return true
 				}
 			}
@@ -424,6 +426,7 @@ func isRotlHelper(f *ssa.Function) bool {
 		return false
 	}
 	res = true
+	rotlHelperMods[f] = modded == 2
 	return true
 }
 
